@@ -29,6 +29,27 @@ def _c02():
     return mod
 
 
+def settle_hangs(rows):
+    """The harness answers `hang` for a whole history when its wall-clock watchdog fires (a
+    self tail call is a jump: no call budget sees the loop). If the reference evaluator ran out
+    of fuel on some text of that history and the model times out on the same text, the program
+    does not terminate under any of the three: there is nothing to judge (and the texts before
+    it cannot be compared, the per-text answers of the implementation being lost). Such an op
+    is compared as model = implementation, without a spec answer. A hang anywhere else stays a
+    hang and is judged by C02's `judge` (a failing input when the reference terminates)."""
+    out, n = [], 0
+    for op, impl, model, spec in rows:
+        if impl == "hang":
+            srecs, mrecs = spec.split(" ;; "), model.split(" ;; ")
+            k = next((i for i, r in enumerate(srecs) if r == "-"), None)
+            if k is not None and k < len(mrecs) and mrecs[k].startswith("timeout"):
+                n += 1
+                out.append((op, model, model, "-"))
+                continue
+        out.append((op, impl, model, spec))
+    return out, n
+
+
 def run(rep):
     try:
         with open(os.path.join(HERE, "notes", "C03.known.json")) as f:
@@ -60,7 +81,9 @@ def run(rep):
         return
     judge = _c02().judge
     rows, stats = V.run_channel("scope", rep.seed, rep.tier)
+    rows, nonterm = settle_hangs(rows)
     rows, jstats = judge(rows)
+    jstats["hang_where_reference_and_model_do_not_terminate_either"] = nonterm
 
     def nontrivial(op, impl):
         return impl.startswith("ok") or " ;; ok" in impl
